@@ -436,8 +436,16 @@ def _last_occurrence_facts(ctx, b, site_bi, args, facts, bufs):
                 if mkey in bufs:
                     evs = [(x, tt, m) for (x, tt, rk, m) in U.receiver_events(ctx, b) if B.norm_atom(rk) == mkey]
                     inserts = [(x, tt) for x, tt, m in evs if m == "insert"]
+                    # entry(k).or_insert(v) also writes v (when absent): same bound argument
+                    for (x, tt, rk, m) in U.receiver_events(ctx, b):
+                        if m in ("or_insert",) and isinstance(rk, tuple) and rk and rk[0] == "call" and rk[1].endswith("HashMap::entry") \
+                                and B.norm_atom(rk[2][0]) == mkey:
+                            fake = dict(tt)
+                            fake["args"] = [tt["args"][0], tt["args"][0], tt["args"][1]]
+                            inserts.append((x, fake))
+                    evs = [(x, tt, ("entry-write" if m == "entry" else m)) for x, tt, m in evs]
                     clears = [x for x, tt, m in evs if m == "clear"]
-                    others = [m for x, tt, m in evs if m not in ("insert", "clear", "get", "deref", "deref_mut", "borrow", "borrow_mut")]
+                    others = [m for x, tt, m in evs if m not in ("insert", "clear", "get", "deref", "deref_mut", "borrow", "borrow_mut", "entry-write")]
                     gets = [x for x, tt, m in evs if m == "get"]
                     ok = bool(inserts) and bool(clears) and not others
                     idx_atom = None
@@ -490,7 +498,7 @@ def lemma_postings(ctx, rule):
     """L3: every position stored in a posting list is < the index's record count, and the counter vector is resized to
     that count before the unchecked increments"""
     before = len(ctx.obs)
-    RT.counters(ctx, rule)
+    RT.counters(ctx, rule, need_clear=False)
     RT.only_store_add_feeds_index(ctx, rule)
     RS.consistency_group(ctx, rule)
     # postings are written only with the record's ix
